@@ -64,7 +64,9 @@ def gen_meta(rng, focus=None):
             toks = wire.encode_args(q)[:rng.choice([0, 1, 3])]
         if not known:
             # unknown to a Metadata server: junk names, Data-server methods, the OTHER server kind's init request name
-            meth = rng.choice(['XYZ', 'SUB', 'DPI2', 'NUSX', 'DPI', 'DPI', 'USB', 'RAC', 'KEEPALIVE'])
+            meth = rng.choice(['XYZ', 'SUB', 'DPI2', 'NUSX', 'DPI', 'DPI', 'USB', 'RAC', 'KEEPALIVE',
+                               # names that are no protocol methods but spell attributes of the server object
+                               'mpi', 'Mpi', 'init', 'INIT', 'request_manager_started', 'close', 'exception'])
         text = b'|'.join([wid.encode(), meth.encode()] + toks) + b'\r\n'
         if outcome is None:
             x = rng.random()
@@ -137,7 +139,7 @@ def gen_data(rng, focus=None):
             text = ('%s|SUB|X|%s\r\n' % (wid, item)).encode()
             lines.append(Line(text, [sym('req'), A(r), B(False), B(True)], r, 'SUB', None, 'valid', 'req'))
         elif x < 0.92:
-            um = rng.choice(['NUS', 'MPI', 'MPI', 'XYZ', 'sub'])
+            um = rng.choice(['NUS', 'MPI', 'MPI', 'XYZ', 'sub', 'dpi', 'init', 'request_manager_started'])
             text = ('%s|%s|S|u|S|p\r\n' % (wid, um)).encode()
             lines.append(Line(text, [sym('req'), A(r), B(True), B(False)], r, um, None, 'valid', 'req'))
         else:
